@@ -279,6 +279,9 @@ func (x *Exec) callFunc(fn *types.Func, recv Value, args []Value, st *State, e *
 			if ca.Callee != key {
 				continue
 			}
+			if x.clauseModeOff(ca.Clause) {
+				continue // `modeX ==> ...` while another mode is being verified: the clause (and its cover) says nothing here
+			}
 			env := x.frameEnv(st)
 			env.vars = copyVars(env.vars)
 			for i := 0; i < sig.Params().Len() && i < len(args); i++ {
@@ -303,6 +306,24 @@ func (x *Exec) callFunc(fn *types.Func, recv Value, args []Value, st *State, e *
 		return x.inlineBody(fi, sig, fi.Decl.Body, recv, args, st, key, nil)
 	}
 	return x.unknownCall(full, sig, args, st)
+}
+
+// clauseModeOff: the clause has the form `<mode name> ==> ...` for a mode that is not the one under verification.
+func (x *Exec) clauseModeOff(c *Clause) bool {
+	ce, ok := c.Expr.(*ast.CallExpr)
+	if !ok {
+		return false
+	}
+	id, ok := ce.Fun.(*ast.Ident)
+	if !ok || id.Name != "__imp" || len(ce.Args) != 2 {
+		return false
+	}
+	m, ok := unparen(ce.Args[0]).(*ast.Ident)
+	if !ok {
+		return false
+	}
+	on, isMode := x.modeFlags[m.Name]
+	return isMode && !on
 }
 
 func (x *Exec) unknownCall(name string, sig *types.Signature, args []Value, st *State) Value {
